@@ -184,6 +184,14 @@ def classify(pid, results, baseline, known):
                     if k.get("clause") == clause_key(o) and k.get("site", "") == (o.get("src") or ""):
                         matched = k
                         break
+                if matched is None:
+                    # the statement of a recorded finding may have been re-worded by an unrelated edit (a renamed local):
+                    # same clause and a closely similar source line is still that finding; another site of the clause is not
+                    import difflib
+                    for k in open_known:
+                        if k.get("clause") == clause_key(o) and k.get("site") and difflib.SequenceMatcher(None, k["site"], o.get("src") or "").ratio() >= 0.75:
+                            matched = k
+                            break
                 # an anchor of this function's contract was not found (the anchored statement was edited): ghost updates
                 # and assumptions tied to it did not happen, so clauses that may depend on them are not decided;
                 # run-time safety, locking and frame obligations do not depend on anchors and still count
